@@ -115,6 +115,8 @@ func init() {
 				treeRejectionsRule(P, R, "C04.f", "prove", "the proving call tree")
 				treeRejectionsRule(P, R, "C04.f", "show", "the verification call tree")
 			}},
+		Rule{ID: "C04.g", Explain: "completeness for every attribute value: prover, verifier and the signer's representation replace a value by its SHA-256 digest under exactly the same condition, BitLen(x) > Lm (a value on the boundary that one side hashes and the other does not makes an honest disclosure fail; same rule as C01.f).",
+			Run: func(P *Program, R *Report) { oversizedHashRuleAs(P, R, "C04.g") }},
 		Rule{ID: "C04.d", Explain: "the ProofD built by CreateProof sets each field from its tabled source (symbolic terms for the e and v responses).",
 			Run: func(P *Program, R *Report) { proofDLiteralRule(P, R) }},
 	)
